@@ -112,6 +112,214 @@ pub fn plan_router(w: &World, knobs: &Knobs, actor: &mut Actor, l: &Ledger) -> V
     flow
 }
 
-pub fn plan_reward_auth(_w: &World, _k: &Knobs, _a: &mut Actor, _l: &Ledger) -> Vec<(Tx, String)> {
-    Vec::new()
+pub fn collect_reward_ix(
+    rng: &mut crate::rng::Rng,
+    pool: &ix::PoolKeys,
+    authority: &solana_program::pubkey::Pubkey,
+    pk: &ix::PositionKeys,
+    index: u8,
+    r: &decode::RewardInfo,
+    owner_acct: &solana_program::pubkey::Pubkey,
+) -> rt::Ix {
+    use whirlpool::accounts as wa;
+    use whirlpool::instruction as wi;
+    if rng.chance(1, 2) {
+        ix::mk(
+            wa::CollectReward {
+                whirlpool: pool.whirlpool,
+                position_authority: *authority,
+                position: pk.position,
+                position_token_account: pk.token_account,
+                reward_owner_account: *owner_acct,
+                reward_vault: r.vault,
+                token_program: ix::tok(),
+            },
+            wi::CollectReward { reward_index: index },
+        )
+    } else {
+        ix::mk(
+            wa::CollectRewardV2 {
+                whirlpool: pool.whirlpool,
+                position_authority: *authority,
+                position: pk.position,
+                position_token_account: pk.token_account,
+                reward_owner_account: *owner_acct,
+                reward_mint: r.mint,
+                reward_vault: r.vault,
+                reward_token_program: ix::tok(),
+                memo_program: ix::memo(),
+            },
+            wi::CollectRewardV2 { reward_index: index, remaining_accounts_info: None },
+        )
+    }
+}
+
+pub fn pick_emissions(rng: &mut crate::rng::Rng) -> u128 {
+    match rng.below(16) {
+        0 => 0,
+        1 => 1,
+        2 => 1u128 << 40,
+        3 | 4 => 1u128 << 64,
+        5 | 6 => (1u128 << 64) * 1000,
+        7 => (1u128 << 64) * 1_000_000_000,
+        8 => 1u128 << 100,
+        9 => u128::MAX >> rng.below(20),
+        10 | 11 => (1u128 << 64) * (1 + rng.below(1_000_000) as u128),
+        _ => rng.log_u128(100),
+    }
+}
+
+/// reward authority (initially the config's reward-emissions super authority)
+pub fn plan_reward_auth(w: &World, _k: &Knobs, actor: &mut Actor, l: &Ledger) -> Vec<(Tx, String)> {
+    use whirlpool::accounts as wa;
+    use whirlpool::instruction as wi;
+    let rng = &mut actor.rng.clone();
+    let mut flow: Vec<(Tx, String)> = Vec::new();
+    let pi = &w.pools[rng.idx(w.pools.len())];
+    let Some(pool) = l.data(&pi.keys.whirlpool).and_then(decode::pool) else { return flow };
+    let n_init = pool.rewards.iter().filter(|r| r.initialized()).count();
+    let action = if n_init == 0 { 0 } else { rng.below(10) };
+    match action {
+        0 | 1 if n_init < 3 || rng.chance(1, 6) => {
+            // initialize the next reward (or a wrong index)
+            let idx = if rng.chance(1, 8) { rng.below(4) as u8 } else { n_init as u8 };
+            let used: Vec<_> = pool.rewards.iter().map(|r| r.mint).collect();
+            let m = w.reward_mints.iter().find(|m| !used.contains(&m.key)).unwrap_or(&w.reward_mints[0]);
+            let vault = crate::world::new_key(rng);
+            let ixn = if rng.chance(1, 2) {
+                let mut i = ix::mk(
+                    wa::InitializeReward {
+                        reward_authority: actor.wallet,
+                        funder: actor.wallet,
+                        whirlpool: pi.keys.whirlpool,
+                        reward_mint: m.key,
+                        reward_vault: vault,
+                        token_program: ix::tok(),
+                        system_program: ix::sys(),
+                        rent: ix::rent_sysvar(),
+                    },
+                    wi::InitializeReward { reward_index: idx },
+                );
+                for mm in i.accounts.iter_mut() {
+                    if mm.pubkey == vault {
+                        mm.is_signer = true;
+                    }
+                }
+                i
+            } else {
+                ix::mk(
+                    wa::InitializeRewardV2 {
+                        reward_authority: actor.wallet,
+                        funder: actor.wallet,
+                        whirlpool: pi.keys.whirlpool,
+                        reward_mint: m.key,
+                        reward_token_badge: ix::pda_token_badge(&pi.keys.config, &m.key),
+                        reward_vault: vault,
+                        reward_token_program: ix::tok(),
+                        system_program: ix::sys(),
+                        rent: ix::rent_sysvar(),
+                    },
+                    wi::InitializeRewardV2 { reward_index: idx },
+                )
+            };
+            flow.push((Tx { ixs: vec![ixn] }, "initialize_reward".into()));
+            // fund the vault (sometimes deliberately too little, sometimes nothing)
+            let amount = match rng.below(8) {
+                0 => 0,
+                1 => rng.log_u64(30),
+                2 => rng.log_u64(62),
+                _ => 1u64 << 61,
+            };
+            if amount > 0 {
+                flow.push((
+                    Tx { ixs: vec![ix::from_sol(spl_token::instruction::mint_to(&ix::tok(), &m.key, &vault, &actor.wallet, &[], amount).unwrap())] },
+                    "fund_reward_vault".into(),
+                ));
+            }
+            let e = pick_emissions(rng);
+            flow.push((Tx { ixs: vec![set_emissions_ix(rng, &pi.keys.whirlpool, &actor.wallet, idx, e, &vault)] }, "set_reward_emissions".into()));
+            if rng.chance(1, 2) {
+                // one atomic transaction
+                let ixs: Vec<rt::Ix> = flow.drain(..).flat_map(|(t, _)| t.ixs).collect();
+                flow.push((Tx { ixs }, "initialize_reward+fund+emissions (atomic)".into()));
+            }
+        }
+        2..=6 => {
+            let cands: Vec<usize> = (0..3).filter(|i| pool.rewards[*i].initialized()).collect();
+            if !cands.is_empty() {
+                let idx = if rng.chance(1, 12) { rng.below(4) as usize } else { cands[rng.idx(cands.len())] };
+                let vault = pool.rewards.get(idx).map(|r| r.vault).unwrap_or_default();
+                let e = pick_emissions(rng);
+                flow.push((Tx { ixs: vec![set_emissions_ix(rng, &pi.keys.whirlpool, &actor.wallet, idx as u8, e, &vault)] }, "set_reward_emissions".into()));
+            }
+        }
+        7 => {
+            // top up a vault
+            let cands: Vec<usize> = (0..3).filter(|i| pool.rewards[*i].initialized()).collect();
+            if !cands.is_empty() {
+                let r = &pool.rewards[cands[rng.idx(cands.len())]];
+                let amount = rng.log_u64(58);
+                flow.push((
+                    Tx { ixs: vec![ix::from_sol(spl_token::instruction::mint_to(&ix::tok(), &r.mint, &r.vault, &actor.wallet, &[], amount).unwrap())] },
+                    "fund_reward_vault".into(),
+                ));
+            }
+        }
+        8 => {
+            // authority hand-over to itself (keeps the world usable, exercises the setters)
+            let ixn = if rng.chance(1, 2) {
+                ix::mk(
+                    wa::SetRewardAuthority { whirlpool: pi.keys.whirlpool, reward_authority: actor.wallet, new_reward_authority: actor.wallet },
+                    wi::SetRewardAuthority { reward_index: rng.below(4) as u8 },
+                )
+            } else {
+                ix::mk(
+                    wa::SetRewardAuthorityBySuperAuthority {
+                        whirlpools_config: w.config,
+                        whirlpool: pi.keys.whirlpool,
+                        reward_emissions_super_authority: actor.wallet,
+                        new_reward_authority: actor.wallet,
+                    },
+                    wi::SetRewardAuthorityBySuperAuthority { reward_index: rng.below(4) as u8 },
+                )
+            };
+            flow.push((Tx { ixs: vec![ixn] }, "set_reward_authority".into()));
+        }
+        _ => {
+            let ixn = ix::mk(
+                wa::SetRewardEmissionsSuperAuthority {
+                    whirlpools_config: w.config,
+                    reward_emissions_super_authority: actor.wallet,
+                    new_reward_emissions_super_authority: actor.wallet,
+                },
+                wi::SetRewardEmissionsSuperAuthority {},
+            );
+            flow.push((Tx { ixs: vec![ixn] }, "set_reward_emissions_super_authority".into()));
+        }
+    }
+    actor.rng = rng.clone();
+    flow
+}
+
+pub fn set_emissions_ix(
+    rng: &mut crate::rng::Rng,
+    whirlpool: &solana_program::pubkey::Pubkey,
+    authority: &solana_program::pubkey::Pubkey,
+    idx: u8,
+    e: u128,
+    vault: &solana_program::pubkey::Pubkey,
+) -> rt::Ix {
+    use whirlpool::accounts as wa;
+    use whirlpool::instruction as wi;
+    if rng.chance(1, 2) {
+        ix::mk(
+            wa::SetRewardEmissions { whirlpool: *whirlpool, reward_authority: *authority, reward_vault: *vault },
+            wi::SetRewardEmissions { reward_index: idx, emissions_per_second_x64: e },
+        )
+    } else {
+        ix::mk(
+            wa::SetRewardEmissionsV2 { whirlpool: *whirlpool, reward_authority: *authority, reward_vault: *vault },
+            wi::SetRewardEmissionsV2 { reward_index: idx, emissions_per_second_x64: e },
+        )
+    }
 }
